@@ -7,7 +7,6 @@ package vdb
 
 import (
 	"fmt"
-	"math/rand/v2"
 	"runtime"
 	"sort"
 	"strings"
@@ -527,7 +526,7 @@ func runConcurrent(r *lib.Run, col *collector, idx int, backend string) {
 		}
 	}
 	r.Count("conc.point_in_time_views_checked", len(h.views))
-	r.Count("conc.reads_with_a_concurrent_write", overlapping)
+	r.Count("conc.read_vs_concurrent_write_pairs_examined", overlapping)
 	r.Count("conc.distinct_values_observed_by_readers", len(distinctSeen))
 	r.Count("conc.histories["+backend+"]", 1)
 	r.Eval(len(h.hops) + len(h.views))
@@ -582,7 +581,7 @@ func syncBatchShared(r *lib.Run, col *collector, idx int, b *real) {
 		wg.Add(1)
 		go func(w int) {
 			defer wg.Done()
-			rng := rand.New(rand.NewPCG(lib.Seed(), uint64(idx)*64+uint64(w)))
+			rng := lib.Rng("C15/syncbatch", uint64(idx)*64+uint64(w))
 			own := map[string]string{}
 			for i := 0; i < steps; i++ {
 				k := fmt.Sprintf("\x02%c%c", 'a'+w, alphabet[rng.IntN(len(alphabet))])
